@@ -477,6 +477,12 @@ impl<T: RcObject> Rc<T> {
     /// read-modify-write operations.
     #[inline(always)]
     pub fn new_many<const N: usize>(obj: T) -> [Self; N] {
+        if N == 0 {
+            // Nobody would ever release an object created with zero owners: hand it to the
+            // ordinary reclamation path instead of leaking it.
+            drop(Self::new(obj));
+            return [(); N].map(|_| Self::null());
+        }
         let ptr = RcInner::alloc(obj, N as _);
         [(); N].map(|_| Self {
             ptr: Raw::from(ptr),
@@ -492,6 +498,14 @@ impl<T: RcObject> Rc<T> {
     /// read-modify-write operations.
     #[inline(always)]
     pub fn new_many_iter(obj: T, count: usize) -> NewRcIter<T> {
+        if count == 0 {
+            // See `new_many`.
+            drop(Self::new(obj));
+            return NewRcIter {
+                remain: 0,
+                ptr: Raw::null(),
+            };
+        }
         let ptr = RcInner::alloc(obj, count as _);
         NewRcIter {
             remain: count,
